@@ -51,9 +51,9 @@ class Harness:
         self.props = meta.get("props", "").split(",") if meta.get("props") else []
         self.tier = meta.get("tier", "quick")
         self.flags = set(f for f in meta.get("flags", "").split(",") if f)
-        self.allow = [re.compile(r) for r in meta.get("allow", "").split("|") if r]
-        self.must_fail = [re.compile(r) for r in meta.get("must_fail", "").split("|") if r]
-        self.nocover = [re.compile(r) for r in meta.get("nocover", "").split("|") if r]
+        self.allow = [re.compile(meta["allow"])] if meta.get("allow") else []
+        self.must_fail = [re.compile(meta["must_fail"])] if meta.get("must_fail") else []
+        self.nocover = [re.compile(meta["nocover"])] if meta.get("nocover") else []
         self.group = meta.get("group", "")
         self.note = meta.get("note", "")
         self.unwind = unwind
